@@ -151,6 +151,32 @@ def lean_ops(ops, types=None) -> str:
     return "(" + " ".join(out) + ")"
 
 
+def lean_events(ops, types, gathers) -> str:
+    """the history as events of the concurrent model (Model/Concurrent.lean): sequential operations as they are, a batch of
+    concurrently awaited value_async calls as its starts (in start order) followed by the completions in the order the
+    harness released them, each with the outcome of ITS executor invocation (ret n / raise n, n = invocation number)"""
+    seq = lean_ops([o for o in ops if o[0] != "gather"], types)
+    # lean_ops consumed the types in creation order; gathers create no stream, so the rendering of the others is unchanged
+    from sexpr import parse as sparse, render
+
+    rendered = [render(x) for x in sparse(seq)]
+    out, k, g = [], 0, 0
+    for op in ops:
+        if op[0] == "gather":
+            _, n_before, _kinds = gathers[g]
+            g += 1
+            calls, perm = op[1], op[2]
+            for (s_, o_, t_, _oc) in calls:
+                out.append(f'(start {s_} {o_ if o_ is not None else "none"} {q(t_) if t_ is not None else "none"})')
+            for j in perm:
+                outcome = calls[j][3]
+                out.append(f'(complete {n_before + j} ({"ret" if outcome == "ok" else "raise"} {n_before + j}))')
+        else:
+            out.append(rendered[k])
+            k += 1
+    return "(" + " ".join(out) + ")"
+
+
 def ref_strip_empty(n):
     "declarative reference for remove_empty_metadata (same as in props/c15.py)"
     if isinstance(n, ast.AST):
@@ -217,6 +243,7 @@ class Runner:
         import random as _random
 
         self.scramble_rng = _random.Random(repr(ops))  # a function of the history, so that a replay does the same
+        self.gathers: List[tuple] = []    # (step, index of the first invocation, what each task got) per concurrent batch
         self.lookup = lookup_query_metadata
         self.hash = calc_ast_hash
         runner = self
@@ -433,6 +460,15 @@ class Runner:
                             return await asyncio.gather(*tasks, return_exceptions=True)
 
                         results = loop.run_until_complete(go())
+                        # what each awaiting task got, named by the executor invocation that produced it (for the event model)
+                        kinds = []
+                        for r_ in results:
+                            if isinstance(r_, tuple) and len(r_) == 2 and r_[0] == "result":
+                                kinds.append(f"(ret {r_[1]})")
+                            else:
+                                n_exc = next((n_ for n_, e_ in self.excs.items() if e_ is r_), None)
+                                kinds.append(f"(raise {n_exc})" if n_exc is not None else f"other:{r_!r}")
+                        self.gathers.append((step_no, n_before, kinds))
                         new = self.calls[n_before:]
                         if len(new) != len(calls):
                             ctx.violate({**self.case, "step": step_no, "calls": len(new), "want": len(calls)},
@@ -500,7 +536,7 @@ def extra_root_checks(ctx):
 
 def run_histories(ctx, n_hist: int, focus: str):
     extra_root_checks(ctx)
-    reqs, keep = [], []
+    reqs, keep, runners = [], [], []
     for _ in range(n_hist):
         ops = gen_history(ctx.rng, ctx.rng.choice([4, 8, 12, 20]))
         r = Runner(ctx, ops, focus)
@@ -512,6 +548,39 @@ def run_histories(ctx, n_hist: int, focus: str):
             continue
         reqs.append(("history", [lean_ops(ops, [type_name(s.item_type) for s in r.streams]), "(" + " ".join(q(k) for k in KEYS) + ")"]))
         keep.append((ops, obs))
+        runners.append(r)
+    # concurrent batches against the event model: every task must have got what ITS OWN invocation produced, whatever the
+    # completion order (theorems task_gets_own_outcome, conc_state)
+    creqs, ckeep = [], []
+    for (ops, obs), r in zip(keep, runners):
+        if r.gathers and len(r.gathers) == sum(1 for o in ops if o[0] == "gather"):
+            creqs.append(("conc", [lean_events(ops, [type_name(s.item_type) for s in r.streams], r.gathers), "(" + " ".join(q(k) for k in KEYS) + ")"]))
+            ckeep.append((ops, obs, r))
+    for (ops, obs, r), (st, payload) in zip(ckeep, ctx.driver.batch(creqs)):
+        ctx.dist["concurrent histories compared with the event model"] += 1
+        try:
+            from sexpr import parse as sparse, render
+
+            final, done, n_pending = sparse(payload) if st == "ok" else (None, None, None)
+        except Exception:
+            final = None
+        if st != "ok" or final is None:
+            ctx.disagree("concurrent-history", {"ops": repr(ops)}, "driver refused", (st, payload[:200]))
+            continue
+        want_final = sparse(obs)[-1]
+        if final != want_final:
+            ctx.disagree("concurrent-history", {"ops": repr(ops)}, "final state differs", render(final)[-300:])
+            continue
+        got = {int(d[0]): render(d[1]) for d in done}
+        task = 0
+        for (_step, n_before, kinds) in r.gathers:
+            for j, kind in enumerate(kinds):
+                want = f"(got {n_before + j} {kind})"
+                if got.get(task) != want:
+                    ctx.disagree("concurrent-history", {"ops": repr(ops)}, f"task {task}: the awaiting call got {kind}", f"model: {got.get(task)}")
+                task += 1
+        if str(n_pending) != "0":
+            ctx.disagree("concurrent-history", {"ops": repr(ops)}, "all tasks finished", f"model has {n_pending} pending")
     res = ctx.driver.batch(reqs)
     for (ops, obs), (st, payload) in zip(keep, res):
         if st != "ok" or payload != obs:
